@@ -341,6 +341,9 @@ func (fs LocalFileSystem) Copy(ctx context.Context, src, dst string, options *Co
 		return nil
 	})
 	if err != nil {
+		// Nothing was at the destination when the walk started (an existing
+		// destination has been removed above): do not leave a partial copy
+		os.RemoveAll(dstPath)
 		// Already converted in the callback; converting again would turn
 		// the 409 for a missing destination parent into a 404
 		return false, err
